@@ -428,8 +428,7 @@ _warc_read(struct archive_read *a, const void **buf, size_t *bsz, int64_t *off)
 		/* it's our lucky day, no work, we can leave early */
 		*buf = NULL;
 		*bsz = 0U;
-		*off = w->cntoff + 4U/*for \r\n\r\n separator*/;
-		w->unconsumed = 0U;
+		*off = w->cntoff;
 		return (ARCHIVE_EOF);
 	}
 
@@ -463,11 +462,16 @@ _warc_skip(struct archive_read *a)
 {
 	struct warc_s *w = a->format->data;
 
-	if (__archive_read_consume(a, w->cntlen) < 0 ||
+	/* Only the part of the content that _warc_read() has not consumed
+	 * yet is still in front of us: cntoff bytes were handed out, of
+	 * which the last `unconsumed' ones have not been consumed. */
+	if (__archive_read_consume(a,
+		w->cntlen - w->cntoff + w->unconsumed) < 0 ||
 	    __archive_read_consume(a, 4U/*\r\n\r\n separator*/) < 0)
 		return (ARCHIVE_FATAL);
 	w->cntlen = 0U;
 	w->cntoff = 0U;
+	w->unconsumed = 0U;
 	return (ARCHIVE_OK);
 }
 
